@@ -143,6 +143,13 @@ example : Smdh.GoodField [0x41, 0xD83D, 0xDE00, 0x42] 0x80 := by
 theorem C20_lzss_roundtrip (P : Bytes) (gs : List (List Lzss.Tok)) (pad : Nat) (hv : Lzss.validB P gs pad = true) :
     Lzss.decompress (Lzss.encodeFile P gs pad) = .ok (P ++ Lzss.expand gs []) := Lzss.decompress_encode P gs pad hv
 
+/-- **decompress ∘ compress = id**, for the reference compressor of the model (`Lzss.compress`: greedy longest match from the
+    end of the data, longest in-place-decodable token prefix, self-checking): every image it returns decompresses to the
+    original, for every input and padding.  The compiled model runs this compressor in the correspondence check and pyctr
+    decompresses its images. -/
+theorem C20_lzss_compress (x : Bytes) (pad : Nat) (img : Bytes) (h : Lzss.compress x pad = some img) :
+    Lzss.decompress img = .ok x := Lzss.decompress_compress x pad img h
+
 /-- what the tokens stand for has the announced size: the decompressed image is `|P| + totalOut gs` bytes long -/
 theorem C20_lzss_size (gs : List (List Lzss.Tok)) : (Lzss.expand gs []).length = Lzss.totalOut gs := by
   simpa using Lzss.expand_length gs []
